@@ -219,7 +219,10 @@ theorem addRegion_in_range (file : List Str) (lineno : Nat) (range : List Nat) (
       | nil => exact absurd hn this
       | cons d ds => simp [numbered, hn]
   have hi : ((r0 : Int) - (lmin lineno 3 : Nat)) = ((r0 - lmin lineno 3 : Nat) : Int) := by omega
-  have hsnip := pyIndex_nat _ _ _ (hidx.trans hsome)
+  have hsnip : snippetAt (window file (lmin lineno 3) k) ((r0 - lmin lineno 3 : Nat) : Int) = some file[r0 - 1] := by
+    have h0 : (0 : Int) ≤ ((r0 - lmin lineno 3 : Nat) : Int) := by omega
+    simp only [snippetAt, h0, if_true, Int.toNat_natCast]
+    exact hidx.trans hsome
   have hgl : getLine file r0 = file[r0 - 1] := by
     have : r0 ≠ 0 := by omega
     simp [getLine, this, hsome]
@@ -235,6 +238,62 @@ theorem addRegion_in_range (file : List Str) (lineno : Nat) (range : List Nat) (
     have hlen : (r0 :: a :: tl').length > 1 := by simp
     simp only [addRegion, parseSnippet, regionOf, hnonempty, hparse, bind, Except.bind, pure, Except.pure, Bool.false_eq_true, if_false,
       h0, h1, hi, hsnip, hlen, if_true]
+    exact ⟨_, rfl, rfl, rfl, rfl⟩
+
+/-- **Region arithmetic, every finding** (since /repo fix "SARIF snippet index"): wherever the
+reported line sits inside its range, the location is produced; `startLine` is the first line of the
+range; the snippet is looked up in the excerpt and absent when the excerpt starts below that line. -/
+theorem addRegion_total (file : List Str) (lineno : Nat) (range : List Nat) (col endCol : Int) (r0 : Nat)
+    (hfile : ∀ t ∈ file, IsLine t) (hr : range.head? = some r0)
+    (h1 : 1 ≤ lineno) (hin : lineno ≤ file.length) :
+    ∃ loc, addRegion range col endCol (getCode file lineno range.length 3 false) = .ok loc
+      ∧ loc.region.startLine = r0
+      ∧ loc.region.snippet = snippetAt (window file (lmin lineno 3) (range.length + 2)) ((r0 : Int) - (lmin lineno 3 : Nat))
+      ∧ loc.ctx.map (·.startLine) = some (lmin lineno 3) := by
+  obtain ⟨tl, rfl⟩ : ∃ tl, range = r0 :: tl := by
+    cases range with
+    | nil => simp at hr
+    | cons a tl => simp at hr; exact ⟨tl, by rw [hr]⟩
+  have hlm1 : 1 ≤ lmin lineno 3 := by rw [lmin_three]; omega
+  have hlm3 : lmin lineno 3 ≤ lineno := by rw [lmin_three]; omega
+  have hne : ∀ t ∈ file, t ≠ [] := by
+    intro t ht; obtain ⟨b, rfl, _⟩ := hfile t ht; simp
+  let k := (r0 :: tl).length + 2
+  have hcode : getCode file lineno (r0 :: tl).length 3 false
+      = (numbered ' ' (lmin lineno 3) (window file (lmin lineno 3) k)).flatten := by
+    simp only [getCode, getCodeLines, lmax_three, Bool.false_eq_true, if_false]
+    rw [codeLines_window file ' ' hne _ _ hlm1]
+  have hidx : (window file (lmin lineno 3) k)[lineno - lmin lineno 3]? = file[lineno - 1]? := by
+    rw [window_getElem? _ _ _ _ (by simp [k]; rw [lmin_three]; omega)]
+    congr 1; omega
+  have hlt : lineno - 1 < file.length := by omega
+  have hsome : file[lineno - 1]? = some file[lineno - 1] := List.getElem?_eq_getElem hlt
+  have hwne : window file (lmin lineno 3) k ≠ [] := by
+    intro he; rw [he] at hidx; rw [hsome] at hidx; simp at hidx
+  have hwl : ∀ t ∈ window file (lmin lineno 3) k, IsLine t := by
+    intro t ht
+    exact hfile t (List.mem_of_mem_drop (List.mem_of_mem_take ht))
+  have hparse := parseCode_render (lmin lineno 3) _ hwne hwl
+  have hnonempty : (numbered ' ' (lmin lineno 3) (window file (lmin lineno 3) k)).flatten.isEmpty = false := by
+    cases hw : window file (lmin lineno 3) k with
+    | nil => exact absurd hw hwne
+    | cons t ts =>
+      have := natStr_ne_nil (lmin lineno 3)
+      cases hn : natStr (lmin lineno 3) with
+      | nil => exact absurd hn this
+      | cons d ds => simp [numbered, hn]
+  have h0 : pyIndex (r0 :: tl) 0 = .ok r0 := pyIndex_nat (r0 :: tl) 0 r0 rfl
+  rw [hcode]
+  cases tl with
+  | nil =>
+    simp only [addRegion, parseSnippet, regionOf, hnonempty, hparse, bind, Except.bind, pure, Except.pure, Bool.false_eq_true, if_false,
+      h0]
+    exact ⟨_, rfl, rfl, rfl, rfl⟩
+  | cons a tl' =>
+    have h1' : pyIndex (r0 :: a :: tl') 1 = .ok a := pyIndex_nat (r0 :: a :: tl') 1 a rfl
+    have hlen : (r0 :: a :: tl').length > 1 := by simp
+    simp only [addRegion, parseSnippet, regionOf, hnonempty, hparse, bind, Except.bind, pure, Except.pure, Bool.false_eq_true, if_false,
+      h0, h1', hlen, if_true]
     exact ⟨_, rfl, rfl, rfl, rfl⟩
 
 /-- whatever else happens, a produced SARIF region starts at the first line of the range -/
